@@ -21,6 +21,8 @@ structure Parsed where
   more : Bool
   frames : List Msg
   hold : Bool := false            -- the service keeps the connection open after the frames
+  debug : Bool := false           -- the global --debug flag
+  hosts : Bool := false           -- `multihost` resolves to both loopback addresses; the service listens on one
   color : String := "off"         -- on | off | auto | absent
   outTty : Bool := false          -- the tool's stdout is a terminal
 
@@ -40,12 +42,21 @@ def parseCase : Sx → Option Parsed
     let isCuts : Sx → Bool := fun f => match f with | .list (.atom "cuts" :: _) => true | _ => false
     let fs ← (fs.filter fun f => !isHold f && !isCuts f).mapM ClientDrv.parseFrame
     let outTty := opts.any fun o => match o with | .list [.atom "tty", .atom "t", _] => true | _ => false
-    pure { form, listen, url, args, more := more == "t", frames := fs.flatten, hold, color, outTty }
+    let has : String → Bool := fun tag => opts.any fun o => match o with | .list (.atom t :: _) => t == tag | _ => false
+    pure { form, listen, url, args, more := more == "t", frames := fs.flatten, hold, color, outTty,
+           debug := has "debug", hosts := has "hosts" }
   | _ => none
 
 /-- `varlink_connect` drops `;parameters` of unix addresses -/
 def connAddr (a : String) : String :=
   if a.startsWith "unix:" then ((a.splitOn ";").head?).getD a else a
+
+/-- with the private hosts file `tcp:multihost:P` reaches a service on `tcp:127.0.0.1:P` as well as on
+    `tcp:[::1]:P`: `TcpStream::connect(name)` tries every address the name resolves to -/
+def reaches (hosts : Bool) (a listen : String) : Bool :=
+  connAddr a == listen ||
+    (hosts && a.startsWith "tcp:multihost:" &&
+      ((a.splitOn ":").getLast?) == ((listen.splitOn ":").getLast?))
 
 def ofReport : Option Cli.Report → Sx
   | none => .atom "-"
@@ -69,27 +80,32 @@ def obs (conns : Nat) (resolver : Option String) (log : List Request) (out : Lis
     .list (.atom "log" :: log.map ClientDrv.ofReq),
     .list (.atom "stdout" :: out.map ofJson), .atom "t", ofBool (colour && out.any painted), exit, report]
 
+
 def msg (c : String) : Sx := .list [.atom "msg", .atom c]
+
+/-- with --debug the message is printed in another form: only its presence is compared -/
+def dbg (debug : Bool) (report : Sx) : Sx :=
+  if debug then (match report with | .atom "-" => report | _ => msg "debug") else report
 
 def runCase (c : Parsed) : Sx :=
   let peer : Peer := fun log _ => if log.isEmpty then (c.frames, !c.hold) else ([], false)
   let call (method : String) (resolver : Option String) : Sx :=
     match c.args with
-    | some none => obs 1 resolver [] [] (.atom "1") (msg "parse-args")
+    | some none => obs 1 resolver [] [] (.atom "1") (dbg c.debug (msg "parse-args"))
     | args =>
       let a : Option Json := match args with | some (some j) => some j | _ => none
       let o := Cli.runCall peer {} method a c.more
       -- main.rs 608-613: `on`, `off`, otherwise "is stdout a terminal"
       let colour := c.color == "on" || (c.color != "off" && c.outTty)
-      obs 1 resolver o.wire.log o.stdout (if o.hang then .atom "hung" else .atom (toString o.exit)) (ofReport o.report) colour
+      obs 1 resolver o.wire.log o.stdout (if o.hang then .atom "hung" else .atom (toString o.exit)) (dbg c.debug (ofReport o.report)) colour
   match Cli.split c.url with
-  | .invalid => obs 0 none [] [] (.atom "1") (msg "invalid-address")
+  | .invalid => obs 0 none [] [] (.atom "1") (dbg c.debug (msg "invalid-address"))
   | .direct a m =>
-    if c.form != "nolisten" && c.form != "resolver" && connAddr a == c.listen then call m none
-    else obs 0 none [] [] (.atom "1") (msg "connect")
+    if c.form != "nolisten" && c.form != "resolver" && reaches c.hosts a c.listen then call m none
+    else obs 0 none [] [] (.atom "1") (dbg c.debug (msg "connect"))
   | .resolve i m =>
     if c.form == "resolver" then call m (some i)
-    else obs 0 none [] [] (.atom "1") (msg "connect-resolver")
+    else obs 0 none [] [] (.atom "1") (dbg c.debug (msg "connect-resolver"))
 
 def parseReport : Sx → Option (Option Cli.Report × Bool)
   | .atom "-" => some (none, false)
@@ -121,8 +137,9 @@ def pred (cs os : Sx) : Cli.Verdict :=
       | some none => if docs.isEmpty && asNat exit != some 0 then none else some "output-or-exit-0-with-unparsable-arguments"
       | args =>
         Cli.P_C20 { url := c.url, args := (match args with | some (some j) => some j | _ => none), more := c.more, frames := c.frames,
-                    listening := c.form == "path" || c.form == "abstract" || c.form == "tcp", listen := c.listen,
-                    hold := c.hold }
+                    listening := c.form == "path" || c.form == "abstract" || c.form == "tcp",
+                    listen := if c.hosts then "tcp:multihost:@PORT@" else c.listen,
+                    hold := c.hold, debug := c.debug, hosts := c.hosts }
           { conns := n, log := lg, rawLog := raw, stdout := docs,
             clean := (match clean with | .atom "t" => true | _ => false),
             exit := asNat exit, report := rep, otherMsg := other }
